@@ -228,6 +228,48 @@ func init() {
 	})
 }
 
+// sizedHistory is a run of single-row inserts (id INT, b LONGBLOB, tail VARCHAR) whose rows events arrive
+// in packets of exactly the wanted payload lengths, in that order.
+func sizedHistory(cfg hist.Cfg, payloads []int) (*hist.History, error) {
+	tb := hist.Table{DB: "d", Name: "sized", ID: 41, Cols: []hist.Column{{Name: "id", Type: refenc.TLong}, {Name: "b", Type: refenc.TBlob, Len: 4, Nullable: true},
+		{Name: "tail", Type: refenc.TVarchar, Len: 40, Nullable: true}}}
+	build := func(ns []int) *hist.History {
+		h := &hist.History{Cfg: cfg, Tables: []hist.Table{tb}, FirstFile: "bin.000001"}
+		for i, n := range ns {
+			ev := hist.RowsEv{Table: 0, Kind: 0, Present1: []bool{true, true, true}, TS: uint32(50 + i),
+				Rows: []hist.Row{{After: []hist.Value{{U: uint64(i)}, {B: refenc.Blob{K: 4, S: uint32(n + i), N: n}}, {B: refenc.Lit([]byte(fmt.Sprintf("tail %d", i)))}}}}}
+			h.Units = append(h.Units, hist.Unit{Kind: hist.UTxXID, Begin: &hist.Query{DB: "d", SQL: "BEGIN", TS: uint32(50 + i)},
+				Items: []hist.Item{{Kind: hist.IRows, Maps: []int{0}, Rows: []hist.RowsEv{ev}, TS: uint32(50 + i)}}, XID: uint64(i + 1), TS: uint32(50 + i)})
+		}
+		h.Base = h.MinBase()
+		return h
+	}
+	ns := make([]int, len(payloads))
+	for i := range ns {
+		ns[i] = 10
+	}
+	l, err := build(ns).Lay()
+	if err != nil {
+		return nil, err
+	}
+	k := 0
+	for _, e := range l.Events {
+		if e.Type == hist.RowsEventType(0, cfg.RowsV2) && k < len(ns) {
+			ns[k] = 10 + payloads[k] - 1 - len(e.Bytes) // the payload has one leading status byte
+			if ns[k] < 0 {
+				ns[k] = 0
+			}
+			k++
+		}
+	}
+	return build(ns), nil
+}
+
+// packetSizes are payload lengths around the sizes at which a transport changes how it buffers: the
+// driver's 4 KiB read buffer and its multiples, and the largest buffer it keeps (256 KiB) with the
+// 4 KiB rounding steps below and above it.
+var packetSizes = []int{4095, 4096, 4097, 8191, 8192, 8193, 12288, 65535, 65536, 258047, 258048, 258049, 262143, 262144, 262145, 266239, 266240, 266241}
+
 func TestC08(t *testing.T) {
 	rec := recorder("C08")
 	defer rec.Flush(t)
@@ -250,7 +292,23 @@ func TestC08(t *testing.T) {
 		if rapid.IntRange(0, 2).Draw(rt, "constants_shape") == 0 {
 			ho = oc
 		}
-		c := &StabilityCase{E: E2ECase{H: gen.History(rt, ho)}, Scribble: rapid.Bool().Draw(rt, "scribble")}
+		c := &StabilityCase{Scribble: rapid.Bool().Draw(rt, "scribble")}
+		if rapid.IntRange(0, 7).Draw(rt, "sized_packets") == 0 {
+			// a run of 3-8 packets whose lengths sit on and next to the transport's buffer sizes, in any order
+			var sizes []int
+			for i, n := 0, rapid.IntRange(3, 8).Draw(rt, "sized_n"); i < n; i++ {
+				sizes = append(sizes, rapid.SampledFrom(packetSizes).Draw(rt, "packet_size"))
+			}
+			cfg := gen.Config(rt)
+			cfg.NHeaderSizes = rapid.IntRange(38, 60).Draw(rt, "nsizes")
+			h, err := sizedHistory(cfg, sizes)
+			if err != nil {
+				rt.Skip(err.Error())
+			}
+			c.E.H = h
+		} else {
+			c.E.H = gen.History(rt, ho)
+		}
 		c.E.Pacing = rapid.IntRange(0, 1).Draw(rt, "pacing")
 		if rapid.IntRange(0, 5).Draw(rt, "handler_refuses") == 0 {
 			c.FailAt = rapid.IntRange(1, 4).Draw(rt, "fail_at")
